@@ -5,7 +5,7 @@ import PV.C20.Domain
 /-! Driver for C20: answers the same request lines as `harness/src/bin/pvh_c20.rs` with the model
     (`tmpl`, `fname`), and evaluates the reference definition for the spec-validation run
     (`stmpl` raw CPython tuples, `ctmpl` canonical parts, `sfname` with a decimal-digit table) and the
-    domain predicates of the `_partial` theorems (`dom`, `fdom`). -/
+    domain predicate of `fieldname_eq_partial` (`fdom`). -/
 open PV PV.C20
 
 def hx (cs : List Nat) : String := hex (utf8Encode cs)
@@ -79,7 +79,6 @@ def handle : List String → String
     match Spec.fieldNameSplit (decValOf (parseTable tbl)) cs with
     | .ok r => showFieldName r
     | .error _ => "err"
-  | ["dom", t] => withText t fun cs => toString (inDomain cs)
   | ["fdom", t, tbl] => withText t fun cs => toString (fieldNameInDomain (decValOf (parseTable tbl)) cs)
   | _ => "bad-request"
 
